@@ -33,7 +33,7 @@ theorem planFields_sound {rec : Ty → Ty → Answer} (hrec : RecGood cfg S rec)
     (hsome : ∀ f ∈ sfs, (lookupField f.name fvals).isSome = true)
     (hty : ∀ f ∈ sfs, ∀ x, lookupField f.name fvals = some x → HasTy cfg S f.ty x) :
     ∀ (ds : List Field) (plan : List FieldPlan), (∀ d ∈ ds, d ∈ dfs) →
-      planFields rec cfg.policy sfs ds = some (some plan) →
+      planFields rec (cfg.policy.allowed dc) sfs ds = some (some plan) →
       ∃ r, runPlan (cfg.dflt dc) fvals plan = some r ∧ FieldsBuilt cfg S ds r
   | [], plan, _, h => by
     simp [planFields] at h
